@@ -68,12 +68,31 @@ def run_plan(prop, tier, seed, t0, mcs, traces, level, assumptions, rule, tagger
     # ---- TRACE: executions of the real code validated against the specification ----
     groups = events = 0
     drift_total = 0
+    replayed = {"behaviours": 0, "mismatch": 0}
     drift_samples = []
     stats_total = {}
     for tr in traces:
         prefix = os.path.join(WORK, prop, "tr_" + tr["name"])
+        tr_args = list(tr["args"])
+        if tr.get("from_mc"):
+            # specification -> implementation: the behaviours this trace executes are printed by TLC from an exhaustive config
+            fm = tr["from_mc"]
+            hist_file = os.path.join(WORK, prop, "mc_" + tr["name"] + ".ndjson")
+            r = mc_emit(prop, fm["name"], fm["module"], fm["cfg"], hist_file, fm.get("workers", NCPU), fm.get("timeout", 3000))
+            mc_results.append({k: v for k, v in r.items() if k != "counterexample"})
+            states += r["distinct_states"]
+            transitions += r["states_generated"]
+            log(f"[{prop}] MC {fm['name']}: {r['distinct_states']} distinct states, {r['emitted']} behaviours emitted for replay, "
+                f"{r['wall_s']}s, {'ok' if r['ok'] else 'VIOLATED ' + str(r['violation'])}")
+            if not r["ok"]:
+                nviol += 1
+                p = write_violation(prop, nviol, {"kind": "spec-level counterexample", "config": fm["cfg"],
+                                                  "invariant": r["violation"], "tlc_output": r.get("counterexample")})
+                log(f"VIOLATION property={prop} replay={p}")
+                continue
+            tr_args += ["--from-tlc", hist_file]
         try:
-            summ = record(tr["engine"], prefix, tr.get("shards", 2 * NCPU), ["--seed", seed] + tr["args"], tr.get("rec_timeout", 3000))
+            summ = record(tr["engine"], prefix, tr.get("shards", 2 * NCPU), ["--seed", seed] + tr_args, tr.get("rec_timeout", 3000))
         except CodeCrash as cc:
             nviol += 1
             pth = write_violation(prop, nviol, {"kind": "crash", "predicate": "NoCrash", "engine": cc.engine, "exit_status": cc.rc,
@@ -89,6 +108,14 @@ def run_plan(prop, tier, seed, t0, mcs, traces, level, assumptions, rule, tagger
         res = validate(prop, tr["module"], tr["cfg"], prefix, tr.get("timeout", 3000))
         groups += summ["groups"]
         events += summ["lines"]
+        if tr.get("from_mc"):
+            # behaviours whose final state in the real code differs from the state the specification predicted (L1, never a verdict by itself)
+            mism = int((summ.get("detail") or {}).get("replay_mismatch", 0))
+            replayed["behaviours"] += summ["groups"]
+            replayed["mismatch"] += mism
+            drift_total += mism
+            if mism and len(drift_samples) < 5:
+                drift_samples.append(["replay_mismatch", (summ.get("detail") or {}).get("first_mismatch")])
         shard0 = sorted(glob.glob(prefix + ".*.ndjson"))[0]
         with open(shard0) as f:
             for i, line in enumerate(f):
@@ -136,6 +163,9 @@ def run_plan(prop, tier, seed, t0, mcs, traces, level, assumptions, rule, tagger
            "l1_drift": drift_total, "l1_drift_samples": drift_samples, "trace_stats": stats_total,
            "known_findings_hit": nknown, "rule": rule,
            "evaluations": events + transitions, "distinct_nontrivial": max(2, states + stats_total.get("nontrivial", groups))}
+    if replayed["behaviours"]:
+        cov["spec_behaviours_replayed_in_impl"] = replayed["behaviours"]
+        cov["spec_behaviours_replay_mismatch"] = replayed["mismatch"]
     if extra_cov:
         cov.update(extra_cov)
     if extra_cov_fn:
@@ -449,6 +479,13 @@ def plan_C09(prop, tier, seed, t0):
         # plug with `other` of the OTHER backend type / inputs_mut / add_edge / add_vertex_with_phase / the Parity-Expr constructors and
         # operators of params.rs mixed into the histories
         dict(name="ext", engine="backends", args=["--histories", 160 if q else 2500, "--len", 60, "--maxlive", 7, "--ext"], **T),
+        # specification -> implementation: mc/MC_BackendsReplay.tla is MC_Backends with a history variable (hidden by a VIEW); for EVERY distinct
+        # reachable state of the two transcribed storage machines TLC prints one operation history that reaches it and the public state
+        # Backends.tla predicts (exact names per tag, vindex, counts, boundary lists, edges); `qxv record backends --from-tlc` executes each
+        # history on both REAL backends from the empty graph, compares the prediction (replay_mismatch, L1) and logs every step for Trace_Backends (L2)
+        dict(name="mcreplay", engine="backends", args=[], shards=NCPU,
+             from_mc=dict(name="replay", module="MC_BackendsReplay.tla", cfg="MC_BackendsReplay_q.cfg" if q else "MC_BackendsReplay_t.cfg",
+                          timeout=3000 if q else 9000), **T),
     ]
     return run_plan(prop, tier, seed, t0, mcs, traces, "model_checking", COMMON_ASSUME + [
                         "vertex identity across backends is a tag stored in the row coordinate; inputs/outputs are taken off the lists before a listed vertex is deleted (valid usage)"],
@@ -464,7 +501,10 @@ def plan_C09(prop, tier, seed, t0):
                     "params.rs, and log after every operation the answers of vertex_data_opt, vertex_type_opt, edge_type_opt (all name pairs incl. dead "
                     "names), coord, phase, vars, phase_and_vars, neighbor_vec, incident_edge_vec, component_vertices, depth, adjacency_matrix(None/Some), "
                     "get_scalar_factor (enumerated and absent conditions) and vec neighbor_at: InvOKx (each consistent with the enumerated graph), "
-                    "Refines against the transcriptions of spec/Compose.tla in tag space, CopyOK, GetSFOK, ParAlgOK",
+                    "Refines against the transcriptions of spec/Compose.tla in tag space, CopyOK, GetSFOK, ParAlgOK; "
+                    "REPLAY (specification -> implementation): one witness history for every distinct state MC_BackendsReplay reaches is executed on both "
+                    "real backends; the final public state must be the one spec/Backends.tla predicts (names, vindex, counts, lists, edges) and every step is "
+                    "validated by Trace_Backends like a recorded history",
                     extra_cov_fn=lambda st, groups: {"extended_observations_validated": st.get("xobs", 0), "ext_operations": st.get("ext_ops", 0),
                                                      "cross_backend_plugs": st.get("plugs", 0), "parity_algebra_calls": st.get("par_algs", 0),
                                                      "parity_new_unsorted_recorded": st.get("par_unsorted", 0),
